@@ -175,3 +175,84 @@ func LF(rc *RC, floor int) {
 		}
 	}
 }
+
+// IP: iterator pairing at the iterator copy. copyDenseIter(dst, src, diter, siter) walks dst
+// with diter and src with siter; an iterator argument is nil (the callee builds it) or a term
+// built from its own tensor (dst.Iterator(), newFlatIterator(dst.Info()), an access pattern made
+// from src's shape/strides, …). Terms are propagated along every path, so renaming and
+// temporaries do not matter; swapped arguments make each term mention the other tensor only.
+func IP(rc *RC, floor int) {
+	rc.S.Declare("IP", "iterator pairing: at every call copyDenseIter(dst, src, diter, siter) the destination iterator is nil or derived from dst and the source iterator is nil or derived from src (terms propagated along each path)", floor)
+	for _, fi := range rc.P.SortedFuncs() {
+		if fi.Pkg != rc.P.Root || fi.Decl.Body == nil || strings.HasSuffix(fi.File, "_test.go") || fi.Key == "tensor.copyDenseIter" {
+			continue
+		}
+		_, tree := sCanon(rc, fi)
+		if !strings.Contains(ir.Render(tree), "copyDenseIter(") {
+			continue
+		}
+		pos := rc.P.Pos(fi.Decl.Pos())
+		paths, ok := ir.EnumPaths(tree, 20000)
+		if !ok {
+			rc.S.Undec("IP", fi.Key, pos, "too many paths")
+			continue
+		}
+		var bad []string
+		n := 0
+		for _, p := range paths {
+			for i, st := range p.Steps {
+				j := strings.Index(st.Head, "copyDenseIter(")
+				if j < 0 {
+					continue
+				}
+				env := pathEnv(ir.Path{Steps: p.Steps[:i]})
+				// the type-switch variable stands for the switched operand
+				for _, g := range p.Guards {
+					if strings.HasPrefix(g, "typeswitch ") {
+						if k := strings.Index(g, ".(type)"); k > 0 {
+							env["%ts"] = strings.TrimPrefix(g[:k], "typeswitch ")
+						}
+					}
+				}
+				args := splitArgs(st.Head[j+len("copyDenseIter(") : strings.LastIndex(st.Head, ")")])
+				if len(args) != 4 {
+					continue
+				}
+				n++
+				d, s := substEnv(args[0], env), substEnv(args[1], env)
+				roots := func(x string) []string { return ldIdent.FindAllString(x, -1) }
+				mentions := func(term, tensor string) bool {
+					for _, r := range roots(tensor) {
+						if ir.HasWord(term, r) {
+							return true
+						}
+					}
+					return false
+				}
+				for k, own := range []string{d, s} {
+					other := []string{s, d}[k]
+					it := substEnv(substEnv(args[2+k], env), env)
+					if it == "nil" {
+						continue
+					}
+					role := []string{"destination", "source"}[k]
+					if !mentions(it, own) {
+						w := fmt.Sprintf("the %s iterator %s = %s is not derived from the %s tensor %s", role, args[2+k], it, role, own)
+						if mentions(it, other) {
+							w += " (it is derived from the other tensor)"
+						}
+						bad = append(bad, w)
+					}
+				}
+			}
+		}
+		if n == 0 {
+			continue
+		}
+		if len(bad) > 0 {
+			rc.S.Viol("IP", fi.Key, pos, strings.Join(uniq(bad), "; ")).Sig = firstWords(bad)
+		} else {
+			rc.S.Ok("IP", fi.Key, pos, fmt.Sprintf("%d call path(s), iterators paired with their tensors", n))
+		}
+	}
+}
